@@ -11,12 +11,13 @@ import (
 	"fmt"
 	"strings"
 	"testing"
+	"time"
 
 	"pgregory.net/rapid"
 )
 
 func init() {
-	monitors["C13"] = &monitor{scenarios: c13Scenarios, run: c13Run}
+	monitors["C13"] = &monitor{scenarios: c13Scenarios, run: c13Run, scenarioLimit: 90 * time.Second}
 }
 
 func c13Scenarios(cfg runCfg) []Scenario {
